@@ -92,6 +92,9 @@ def _gravity(system, bodies):
             system.add(Force(b.mass * GRAV, b, name=f"grav_{b.name}"))
 
 
+KF_SLOW = "consistent_initial_conditions/slow-sliding-friction"
+
+
 def _residuals(ctx, S, det, contact):
     """recompute the initial equations from the returned values"""
     t, q, u = S.t0, S.q0, S.u0
@@ -167,6 +170,14 @@ def _residuals(ctx, S, det, contact):
                     ref = -mu * laN * gam / np.linalg.norm(gam)
                     if np.linalg.norm(laF - ref) > atol + 1e-5 * mu * laN:
                         ctx.violation("consistent_initial_conditions/coulomb", "sliding contact: friction force is not -mu la_N gamma_F/|gamma_F|", {**excf, "reference": ref})
+                elif np.linalg.norm(gam) > 1e-8:
+                    # slow sliding (between assembly's stick tolerance 1e-8 and 1e-3): Coulomb's law knows no slow sliding, the
+                    # force is the full -mu la_N gamma_F/|gamma_F| here as well
+                    ctx.cls("friction:slow_slip")
+                    ref = -mu * laN * gam / np.linalg.norm(gam)
+                    if np.linalg.norm(laF - ref) > atol + 1e-3 * mu * laN:
+                        ctx.violation("consistent_initial_conditions/coulomb", "slowly sliding contact: friction force is not -mu la_N gamma_F/|gamma_F|",
+                                      {**excf, "reference": ref, "slip_speed": float(np.linalg.norm(gam))}, key=KF_SLOW)
                 elif np.linalg.norm(gam) <= 1e-8:
                     if np.linalg.norm(gamd) > 1e-3 * max(1.0, np.abs(ud).max()):
                         ctx.cls("friction:stick->slip")
@@ -274,6 +285,9 @@ def _build_contact(rng, ctx, det, bad=None):
     if aligned:
         vt = (t1 if rng.random() < 0.5 else t2) * float(rng.normal() * 2 + 0.1)
         ctx.cls("contact:slip_along_a_tangent_axis")
+    elif bad is None and scen == "slide" and rng.random() < 0.35:
+        vt = vt / np.linalg.norm(vt) * float(loguniform(rng, 3e-8, 1e-3))      # creeping contact
+        det["slow_slide_speed"] = float(np.linalg.norm(vt))
     if bad == "penetration":
         pos = pos - n * float(rng.uniform(1e-3, 0.3))
     if carrier == "rigid_body":
